@@ -5,6 +5,37 @@ import (
 	"net/http"
 )
 
+// bufDecorator is a middleware ResponseWriter that holds written bytes until its own Flush (like a compressing
+// or buffering middleware); unflushed bytes are invisible to the client. It also offers Unwrap.
+type bufDecorator struct {
+	inner   *fakeSink
+	pending []byte
+}
+
+func (d *bufDecorator) Header() http.Header { return d.inner.Header() }
+func (d *bufDecorator) WriteHeader(c int)   { d.inner.WriteHeader(c) }
+func (d *bufDecorator) Write(p []byte) (int, error) {
+	d.pending = append(d.pending, p...)
+	return len(p), nil
+}
+func (d *bufDecorator) Flush() {
+	if len(d.pending) > 0 {
+		d.inner.Write(d.pending)
+		d.pending = nil
+	}
+	d.inner.Flush()
+}
+func (d *bufDecorator) Unwrap() http.ResponseWriter { return d.inner }
+
+// thinDecorator passes everything through, has no Flush of its own, and offers Unwrap (the Flusher has to be
+// found behind it).
+type thinDecorator struct{ inner *fakeSink }
+
+func (d *thinDecorator) Header() http.Header         { return d.inner.Header() }
+func (d *thinDecorator) WriteHeader(c int)           { d.inner.WriteHeader(c) }
+func (d *thinDecorator) Write(p []byte) (int, error) { return d.inner.Write(p) }
+func (d *thinDecorator) Unwrap() http.ResponseWriter { return d.inner }
+
 // hC16Stream: in streaming RPCs between streaming-capable protocols each message is forwarded as soon
 // as it is complete: (a) when the handler's Write that completes response message k returns, the
 // client-side sink already holds k translated frames and was flushed after the last byte; (b) when
@@ -106,7 +137,20 @@ func hC16Stream() {
 	})
 	p.req = buildClientRequest(cfg, nil, p.body)
 	p.body.data = stream
-	p.tr.ServeHTTP(p.sink, p.req)
+	// the ResponseWriter the transcoder is given: the sink itself or a middleware's decorator around it
+	var writer http.ResponseWriter = p.sink
+	var buffered *bufDecorator
+	switch verifChoose("writer", 3) {
+	case 1:
+		buffered = &bufDecorator{inner: p.sink}
+		writer = buffered
+	case 2:
+		writer = &thinDecorator{inner: p.sink}
+	}
+	p.tr.ServeHTTP(writer, p.req)
+	if buffered != nil {
+		buffered.Flush() // the middleware flushes what is left when the handler returns
+	}
 	out := refParseClientResponse(cfg, p.sink, true)
 	verifObsBytes("client-body", p.sink.body)
 	verifReach("ping-pong-completed")
